@@ -147,6 +147,10 @@ def ho_case(draw):
                 cli_rw=draw(st.integers(1, 15)),
                 psize=draw(st.one_of(around(128), st.integers(0, 4000))),
                 qsize=draw(st.one_of(around(128), st.integers(0, 4000))),
+                # further request / select rounds on the same connection
+                more=draw(st.lists(st.lists(
+                    st.one_of(around(128, 2), st.integers(0, 600)),
+                    min_size=2, max_size=2), min_size=0, max_size=2)),
                 seed=draw(st.integers(0, 255)))
 
 
@@ -270,9 +274,14 @@ def run(case, ctx):
                 finally:
                     done.append(1)
         else:
-            msg = hr_message(case["psize"], case["seed"])
-            answer = b"".join(ndef.message_encoder(
-                hs_records(case["qsize"], case["seed"])))
+            rounds = [[case["psize"], case["qsize"]]] + [
+                list(r) for r in case.get("more") or []]
+            msgs = [hr_message(p, case["seed"] + 5 * k)
+                    for k, (p, q) in enumerate(rounds)]
+            answers = [b"".join(ndef.message_encoder(
+                hs_records(q, case["seed"] + 5 * k)))
+                for k, (p, q) in enumerate(rounds)]
+            msg, answer = msgs[0], answers[0]
 
             class Server(nfc.handover.HandoverServer):
                 def _process_request_data(self, octets):
@@ -282,7 +291,8 @@ def run(case, ctx):
 
                 def process_handover_request_message(self, records):
                     seen.append(b"".join(ndef.message_encoder(records)))
-                    return hs_records(case["qsize"], case["seed"])
+                    k = min(len(seen), len(rounds)) - 1
+                    return hs_records(rounds[k][1], case["seed"] + 5 * k)
 
             def start_server(llc):
                 Server(llc, recv_miu=case["srv_miu"],
@@ -295,6 +305,11 @@ def run(case, ctx):
                               recv_buf=case["cli_rw"])
                     out["sent"] = c.send_octets(msg)
                     out["result"] = c.recv_octets(timeout=5.0)
+                    out["more"] = []
+                    for m in msgs[1:]:
+                        sent = c.send_octets(m)
+                        out["more"].append([sent, c.recv_octets(timeout=5.0)
+                                            if sent else None])
                     c.close()
                 except nfc.llcp.Error as e:
                     out["llcp_error"] = e
@@ -378,15 +393,28 @@ def run(case, ctx):
     else:
         if out.get("sent") is not True:
             raise Violation("handover-send-failed", repr(out)[:200])
-        if seen != [msg] or raw != [msg]:
-            raise Violation("handover-request-not-delivered-once-intact",
-                            "sent %d, server saw %r" % (
-                                len(msg), [len(s) for s in raw]))
         if out.get("result") != answer:
             got = out.get("result")
             raise Violation("handover-response-differs",
                             "want %d octets got %r" % (
                                 len(answer), None if got is None else len(got)))
+        for k, (sent, got) in enumerate(out.get("more") or [], 1):
+            if sent is not True:
+                raise Violation("handover-send-failed", "request %d on the "
+                                "same connection: %r" % (k + 1, sent))
+        if seen != msgs or raw != msgs:
+            raise Violation("handover-request-not-delivered-once-intact",
+                            "sent %r, server saw %r, its application %r" % (
+                                [len(m) for m in msgs], [len(s) for s in raw],
+                                [len(s) for s in seen]),)
+        for k, (sent, got) in enumerate(out.get("more") or [], 1):
+            if got != answers[k]:
+                raise Violation("handover-response-differs", "request %d on "
+                                "the same connection: want %d octets got %r"
+                                % (k + 1, len(answers[k]),
+                                   None if got is None else len(got)))
+        if len(msgs) > 1:
+            ctx.label("handover-rounds:%d" % len(msgs))
         eff = min(case["srv_miu"], case["miu_" + srv_side])
         nfrag = max((len(msg) + eff - 1) // eff,
                     (len(answer) + 127) // 128)
